@@ -163,7 +163,8 @@ def main():
     if args[0] == '--setup':
         gc_build()
         ok = True
-        props = args[1:] or sorted(CHECKS)
+        ready = [l.strip() for l in open(os.path.join(VERIF, 'checks.d', 'READY.txt')) if l.strip() and not l.startswith('#')]
+        props = args[1:] or ready
         t0 = time.time()
         for prop in props:
             for v in CHECKS[prop]['variants']:
